@@ -24,7 +24,8 @@ def scriptOcc (S : List Stmt) : List Symbol := S.flatMap stmtOcc
 def WellIndexed (S : List Stmt) : Prop :=
   ∀ s ∈ scriptOcc S, (isIndexed s.type = false → s.lags = .none) ∧ (isIndexed s.type = true → s.lags ≠ .none)
 
-/-- Guard (the C01 grammar): no name is used both as a called function and as anything else. -/
+/-- No name is used both as a called function and as anything else (a *consequence* of acceptance since the
+    code rejects such a clash: see `accepted_no_function_clash` in `Proofs/C03.lean`). -/
 def NoFunctionClash (S : List Stmt) : Prop :=
   ∀ s1 ∈ scriptOcc S, ∀ s2 ∈ scriptOcc S, s1.name = s2.name → s1.type = .function → s2.type = .function
 
@@ -72,30 +73,34 @@ def projSyms : Except Err EqState → Except Err (List Symbol)
   | .ok st => .ok st.symbols
   | .error e => .error e
 
+/-- A name used as a called function and as something else within one term list. -/
+def ClashT (ts : List Term) : Prop :=
+  ∃ t1 ∈ ts, ∃ t2 ∈ ts, t1.type = .function ∧ t2.type ≠ .function ∧ t2.type ≠ .verbatim ∧ t1.name = t2.name
+
+/-- The loop of `parse_equation` is a plain `addSym` fold — unless a function/variable clash stops it with
+    ParserError. -/
 theorem stepTerm_fold_eq (e c : String) : ∀ (rest pre : List Term) (st : EqState),
     (∀ t ∈ pre ++ rest, t.type = .function → t.index = .none) →
-    (∀ t1 ∈ pre ++ rest, ∀ t2 ∈ pre ++ rest, t1.type ≠ .verbatim → t2.type ≠ .verbatim → t1.name = t2.name →
-      t1.type = .function → t2.type = .function) →
     InvST pre st →
-    projSyms (foldE (stepTerm e c) st rest) = foldE addSym st.symbols (termSyms e c rest) := by
+    projSyms (foldE (stepTerm e c) st rest) = foldE addSym st.symbols (termSyms e c rest) ∨
+    (foldE (stepTerm e c) st rest = .error .parserError ∧ ClashT (pre ++ rest)) := by
   intro rest
   induction rest with
-  | nil => intro pre st _ _ _; simp [foldE, projSyms, termSyms]
+  | nil => intro pre st _ _; left; simp [foldE, projSyms, termSyms]
   | cons t rest ih =>
-    intro pre st w1 w2 inv
+    intro pre st w1 inv
     have hmem : t ∈ pre ++ t :: rest := by simp
     have w1' : ∀ t' ∈ (pre ++ [t]) ++ rest, t'.type = .function → t'.index = .none := by
       intro t' ht'; apply w1; simpa using ht'
-    have w2' : ∀ t1 ∈ (pre ++ [t]) ++ rest, ∀ t2 ∈ (pre ++ [t]) ++ rest, t1.type ≠ .verbatim → t2.type ≠ .verbatim →
-        t1.name = t2.name → t1.type = .function → t2.type = .function := by
-      intro t1 h1 t2 h2; exact w2 t1 (by simpa using h1) t2 (by simpa using h2)
+    have happ : (pre ++ [t]) ++ rest = pre ++ t :: rest := by simp
     rw [termSyms_cons]
     by_cases hv : t.type = .verbatim
     · -- verbatim: skipped
       simp only [hv, if_true]
       have hstep : stepTerm e c st t = .ok st := by simp [stepTerm, hv]
       simp only [foldE, hstep]
-      apply ih (pre ++ [t]) st w1' w2'
+      rw [← happ]
+      apply ih (pre ++ [t]) st w1'
       refine ⟨?_, ?_, inv.i3, ?_⟩
       · intro k hk; obtain ⟨t', ht', h⟩ := inv.i1 k hk; exact ⟨t', by simp [ht'], h⟩
       · intro t' ht' hf
@@ -125,7 +130,8 @@ theorem stepTerm_fold_eq (e c : String) : ∀ (rest pre : List Term) (st : EqSta
             rw [hfs]; simp only [Option.getD_some, combine_fnSym]
             rw [setSym_self hfs]
           simp only [foldE, hstep, hadd]
-          apply ih (pre ++ [t]) st w1' w2'
+          rw [← happ]
+          apply ih (pre ++ [t]) st w1'
           refine ⟨?_, ?_, inv.i3, ?_⟩
           · intro k hk; obtain ⟨t', ht', h⟩ := inv.i1 k hk; exact ⟨t', by simp [ht'], h⟩
           · intro t' ht' hf'
@@ -134,119 +140,147 @@ theorem stepTerm_fold_eq (e c : String) : ∀ (rest pre : List Term) (st : EqSta
             · simp at h; subst h; rw [hfind, hx]
           · intro f x' hx'; obtain ⟨t', ht', h⟩ := inv.i4 f x' hx'; exact ⟨t', by simp [ht'], h⟩
         | none =>
-          -- first time this function is seen: by the no-clash guard the name is not a key yet
-          have hnot : (some t.name) ∉ keys st.symbols := by
-            intro hk
+          cases hsymfind : findSym (some t.name) st.symbols with
+          | some y =>
+            -- a variable of that name is already there: ParserError, and it is a clash
+            right
+            have hstep : stepTerm e c st t = .error .parserError := by
+              unfold stepTerm
+              simp only [if_neg hv, if_pos hf, hfind, hsymfind]
+            refine ⟨by simp [foldE, hstep], ?_⟩
+            have hk : (some t.name) ∈ keys st.symbols := by
+              have := (findSym_some hsymfind)
+              rw [← this.1]; exact List.mem_map_of_mem this.2
             obtain ⟨t', ht', hnv, hname⟩ := inv.i1 _ hk
             have hname' : t'.name = t.name := by simpa using hname
-            have : t'.type = .function :=
-              w2 t hmem t' (by simp [ht']) hv hnv hname'.symm hf
-            have := inv.i2 t' ht' this
-            rw [hname', hfind] at this; cases this
-          have hnone : findSym (some t.name) st.symbols = none := (findSym_none_iff _ _).2 hnot
-          have hstep : stepTerm e c st t
-              = .ok ⟨setSym (fnSym t.name) st.symbols, st.functions ++ [fnSym t.name]⟩ := by
-            unfold stepTerm
-            simp only [if_neg hv, if_pos hf, hfind, hlit]
-          have hadd : addSym st.symbols (termSymbol e c t) = .ok (setSym (fnSym t.name) st.symbols) := by
-            rw [hsym]; unfold addSym
-            have : (fnSym t.name).name = some t.name := rfl
-            rw [this, hnone]; simp [combine_fnSym]
-          simp only [foldE, hstep, hadd]
-          apply ih (pre ++ [t]) ⟨setSym (fnSym t.name) st.symbols, st.functions ++ [fnSym t.name]⟩ w1' w2'
-          refine ⟨?_, ?_, ?_, ?_⟩
-          · intro k hk
-            rw [keys_setSym] at hk
-            rcases (mem_pushNew _ _ _).1 hk with h | h
-            · obtain ⟨t', ht', h'⟩ := inv.i1 k h; exact ⟨t', by simp [ht'], h'⟩
-            · exact ⟨t, by simp, hv, by rw [h]; rfl⟩
-          · intro t' ht' hf'
-            show findSym (some t'.name) (st.functions ++ [fnSym t.name]) = _
-            rw [findSym_append]
-            rcases List.mem_append.mp ht' with h | h
-            · rw [inv.i2 t' h hf']
-            · simp at h; subst h; rw [hfind]; simp [fnSym]
-          · intro f x hx
-            have hx' : findSym (some f) (st.functions ++ [fnSym t.name]) = some x := hx
-            rw [findSym_append] at hx'
-            show x = fnSym f ∧ findSym (some f) (setSym (fnSym t.name) st.symbols) = some x
-            cases hff : findSym (some f) st.functions with
-            | some y =>
-              rw [hff] at hx'; simp at hx'; subst hx'
-              obtain ⟨h1, h2⟩ := inv.i3 f y hff
-              refine ⟨h1, ?_⟩
-              have hne : f ≠ t.name := by
-                intro e'; subst e'; rw [hfind] at hff; cases hff
-              rw [findSym_setSym_other _ _ _ (by simp [fnSym]; exact hne)]
-              exact h2
-            | none =>
-              rw [hff] at hx'
-              by_cases hft : (fnSym t.name).name = some f
-              · simp [hft] at hx'; subst hx'
-                have : t.name = f := by simpa [fnSym] using hft
-                subst this
-                exact ⟨rfl, findSym_setSym_same (fnSym t.name) st.symbols⟩
-              · simp [hft] at hx'
-          · intro f x hx
-            have hx' : findSym (some f) (st.functions ++ [fnSym t.name]) = some x := hx
-            rw [findSym_append] at hx'
-            cases hff : findSym (some f) st.functions with
-            | some y =>
-              obtain ⟨t', ht', h⟩ := inv.i4 f y hff; exact ⟨t', by simp [ht'], h⟩
-            | none =>
-              rw [hff] at hx'
-              by_cases hft : (fnSym t.name).name = some f
-              · have : t.name = f := by simpa [fnSym] using hft
-                exact ⟨t, by simp, hf, this⟩
-              · simp [hft] at hx'
+            have hnf : t'.type ≠ .function := by
+              intro hf'
+              have := inv.i2 t' ht' hf'
+              rw [hname', hfind] at this; cases this
+            exact ⟨t, hmem, t', by simp [ht'], hf, hnf, hnv, hname'.symm⟩
+          | none =>
+            have hstep : stepTerm e c st t
+                = .ok ⟨setSym (fnSym t.name) st.symbols, st.functions ++ [fnSym t.name]⟩ := by
+              unfold stepTerm
+              simp only [if_neg hv, if_pos hf, hfind, hsymfind, hlit]
+            have hadd : addSym st.symbols (termSymbol e c t) = .ok (setSym (fnSym t.name) st.symbols) := by
+              rw [hsym]; unfold addSym
+              have : (fnSym t.name).name = some t.name := rfl
+              rw [this, hsymfind]; simp [combine_fnSym]
+            simp only [foldE, hstep, hadd]
+            rw [← happ]
+            apply ih (pre ++ [t]) ⟨setSym (fnSym t.name) st.symbols, st.functions ++ [fnSym t.name]⟩ w1'
+            refine ⟨?_, ?_, ?_, ?_⟩
+            · intro k hk
+              rw [keys_setSym] at hk
+              rcases (mem_pushNew _ _ _).1 hk with h | h
+              · obtain ⟨t', ht', h'⟩ := inv.i1 k h; exact ⟨t', by simp [ht'], h'⟩
+              · exact ⟨t, by simp, hv, by rw [h]; rfl⟩
+            · intro t' ht' hf'
+              show findSym (some t'.name) (st.functions ++ [fnSym t.name]) = _
+              rw [findSym_append]
+              rcases List.mem_append.mp ht' with h | h
+              · rw [inv.i2 t' h hf']
+              · simp at h; subst h; rw [hfind]; simp [fnSym]
+            · intro f x hx
+              have hx' : findSym (some f) (st.functions ++ [fnSym t.name]) = some x := hx
+              rw [findSym_append] at hx'
+              show x = fnSym f ∧ findSym (some f) (setSym (fnSym t.name) st.symbols) = some x
+              cases hff : findSym (some f) st.functions with
+              | some y =>
+                rw [hff] at hx'; simp at hx'; subst hx'
+                obtain ⟨h1, h2⟩ := inv.i3 f y hff
+                refine ⟨h1, ?_⟩
+                have hne : f ≠ t.name := by
+                  intro e'; subst e'; rw [hfind] at hff; cases hff
+                rw [findSym_setSym_other _ _ _ (by simp [fnSym]; exact hne)]
+                exact h2
+              | none =>
+                rw [hff] at hx'
+                by_cases hft : (fnSym t.name).name = some f
+                · simp [hft] at hx'; subst hx'
+                  have : t.name = f := by simpa [fnSym] using hft
+                  subst this
+                  exact ⟨rfl, findSym_setSym_same (fnSym t.name) st.symbols⟩
+                · simp [hft] at hx'
+            · intro f x hx
+              have hx' : findSym (some f) (st.functions ++ [fnSym t.name]) = some x := hx
+              rw [findSym_append] at hx'
+              cases hff : findSym (some f) st.functions with
+              | some y =>
+                obtain ⟨t', ht', h⟩ := inv.i4 f y hff; exact ⟨t', by simp [ht'], h⟩
+              | none =>
+                rw [hff] at hx'
+                by_cases hft : (fnSym t.name).name = some f
+                · have : t.name = f := by simpa [fnSym] using hft
+                  exact ⟨t, by simp, hf, this⟩
+                · simp [hft] at hx'
       · -- ordinary term
-        have hstep : stepTerm e c st t = match addSym st.symbols (termSymbol e c t) with
-            | .ok d => .ok ⟨d, st.functions⟩
-            | .error x => .error x := by
-          simp only [stepTerm, if_neg hv, if_neg hf]
-          cases addSym st.symbols (termSymbol e c t) <;> rfl
-        cases hadd : addSym st.symbols (termSymbol e c t) with
-        | error x => simp [foldE, hstep, hadd, projSyms]
-        | ok d =>
-          simp only [foldE, hstep, hadd]
-          apply ih (pre ++ [t]) ⟨d, st.functions⟩ w1' w2'
-          obtain ⟨cc, hcc, hd, hcn⟩ := addSym_ok hadd
-          have hcn' : cc.name = some t.name := hcn
-          refine ⟨?_, ?_, ?_, ?_⟩
-          · intro k hk
-            show ∃ t' ∈ pre ++ [t], _
-            have hk' : k ∈ keys (setSym cc st.symbols) := by rw [← hd]; exact hk
-            rw [keys_setSym] at hk'
-            rcases (mem_pushNew _ _ _).1 hk' with h | h
-            · obtain ⟨t', ht', h'⟩ := inv.i1 k h; exact ⟨t', by simp [ht'], h'⟩
-            · exact ⟨t, by simp, hv, by rw [h, hcn']⟩
-          · intro t' ht' hf'
-            rcases List.mem_append.mp ht' with h | h
-            · exact inv.i2 t' h hf'
-            · simp at h; subst h; exact absurd hf' hf
-          · intro f x hx
-            obtain ⟨h1, h2⟩ := inv.i3 f x hx
-            refine ⟨h1, ?_⟩
-            show findSym (some f) d = some x
-            obtain ⟨t', ht', htf, htn⟩ := inv.i4 f x hx
-            have hne : f ≠ t.name := by
-              intro e'
-              have := w2 t' (by simp [ht']) t hmem (by rw [htf]; simp) hv (by rw [htn, e']) htf
-              exact hf this
-            rw [hd, findSym_setSym_other _ _ _ (by rw [hcn']; simpa using hne)]
-            exact h2
-          · intro f x hx; obtain ⟨t', ht', h⟩ := inv.i4 f x hx; exact ⟨t', by simp [ht'], h⟩
+        cases hfind : findSym (some t.name) st.functions with
+        | some y =>
+          -- a function of that name was called earlier in the statement: ParserError, and it is a clash
+          right
+          have hstep : stepTerm e c st t = .error .parserError := by
+            unfold stepTerm
+            simp only [if_neg hv, if_neg hf, hfind]
+          refine ⟨by simp [foldE, hstep], ?_⟩
+          obtain ⟨t', ht', htf, htn⟩ := inv.i4 t.name y hfind
+          exact ⟨t', by simp [ht'], t, hmem, htf, hf, hv, htn⟩
+        | none =>
+          have hstep : stepTerm e c st t = match addSym st.symbols (termSymbol e c t) with
+              | .ok d => .ok ⟨d, st.functions⟩
+              | .error x => .error x := by
+            simp only [stepTerm, if_neg hv, if_neg hf, hfind]
+            cases addSym st.symbols (termSymbol e c t) <;> rfl
+          cases hadd : addSym st.symbols (termSymbol e c t) with
+          | error x => left; simp [foldE, hstep, hadd, projSyms]
+          | ok d =>
+            simp only [foldE, hstep, hadd]
+            rw [← happ]
+            apply ih (pre ++ [t]) ⟨d, st.functions⟩ w1'
+            obtain ⟨cc, hcc, hd, hcn⟩ := addSym_ok hadd
+            have hcn' : cc.name = some t.name := hcn
+            refine ⟨?_, ?_, ?_, ?_⟩
+            · intro k hk
+              show ∃ t' ∈ pre ++ [t], _
+              have hk' : k ∈ keys (setSym cc st.symbols) := by rw [← hd]; exact hk
+              rw [keys_setSym] at hk'
+              rcases (mem_pushNew _ _ _).1 hk' with h | h
+              · obtain ⟨t', ht', h'⟩ := inv.i1 k h; exact ⟨t', by simp [ht'], h'⟩
+              · exact ⟨t, by simp, hv, by rw [h, hcn']⟩
+            · intro t' ht' hf'
+              rcases List.mem_append.mp ht' with h | h
+              · exact inv.i2 t' h hf'
+              · simp at h; subst h; exact absurd hf' hf
+            · intro f x hx
+              obtain ⟨h1, h2⟩ := inv.i3 f x hx
+              refine ⟨h1, ?_⟩
+              show findSym (some f) d = some x
+              have hne : f ≠ t.name := by
+                intro e'; subst e'
+                have : findSym (some t.name) st.functions = some x := hx
+                rw [hfind] at this; cases this
+              rw [hd, findSym_setSym_other _ _ _ (by rw [hcn']; simpa using hne)]
+              exact h2
+            · intro f x hx; obtain ⟨t', ht', h⟩ := inv.i4 f x hx; exact ⟨t', by simp [ht'], h⟩
 
-theorem symbolsOfTerms_eq (e c : String) (ts : List Term)
-    (w1 : ∀ t ∈ ts, t.type = .function → t.index = .none)
-    (w2 : ∀ t1 ∈ ts, ∀ t2 ∈ ts, t1.type ≠ .verbatim → t2.type ≠ .verbatim → t1.name = t2.name →
-      t1.type = .function → t2.type = .function) :
-    symbolsOfTerms e c ts = foldE addSym [] (termSyms e c ts) := by
-  have := stepTerm_fold_eq e c ts [] ⟨[], []⟩ (by simpa using w1) (by simpa using w2)
+/-- `parse_equation`'s symbol list: the `addSym` fold over the statement's term symbols, then the
+    one-endogenous-variable check; a function/variable clash is the only other way to fail. -/
+theorem symbolsOfTerms_cases (e c : String) (ts : List Term)
+    (w1 : ∀ t ∈ ts, t.type = .function → t.index = .none) :
+    (symbolsOfTerms e c ts = match foldE addSym [] (termSyms e c ts) with
+      | .ok G => if (G.filter isDefined).length = 1 then .ok G else .error .parserError
+      | .error x => .error x) ∨
+    (symbolsOfTerms e c ts = .error .parserError ∧ ClashT ts) := by
+  have := stepTerm_fold_eq e c ts [] ⟨[], []⟩ (by simpa using w1)
     ⟨by simp [keys], by simp, by simp [findSym], by simp [findSym]⟩
   unfold symbolsOfTerms
-  rw [← this]
-  cases foldE (stepTerm e c) ⟨[], []⟩ ts <;> rfl
+  rcases this with h | ⟨h, hc⟩
+  · left
+    simp only at h
+    rw [← h]
+    cases foldE (stepTerm e c) ⟨[], []⟩ ts <;> rfl
+  · right; rw [h]; exact ⟨rfl, by simpa using hc⟩
 
 /-! ### The merge inside `parse_model` -/
 
